@@ -1,0 +1,76 @@
+//go:build verif
+
+package server
+
+// Hooks for the verification harness in /verif (build tag "verif" only):
+// entry points to the request handler and a consistent snapshot of the
+// per-client timestamp store. Nothing here changes the behaviour of the
+// package; without the tag this file is not compiled.
+
+import (
+	"sort"
+	"time"
+
+	"example.com/scion-time/net/ntp"
+)
+
+const (
+	VerifTSSCap     = tssCap
+	VerifTSSItemCap = tssItemCap
+)
+
+type VerifTSSEntry struct {
+	Rxt, Txt ntp.Time64
+}
+
+type VerifTSSItem struct {
+	Key     string
+	Entries []VerifTSSEntry
+	Qval    ntp.Time64
+	Qidx    int
+}
+
+type VerifTSSSnapshot struct {
+	Items []VerifTSSItem // sorted by key
+	Queue []string       // keys in the order of the priority queue's backing array
+}
+
+func VerifHandleRequest(clientID string, req *ntp.Packet, rxt, txt *time.Time, resp *ntp.Packet) {
+	handleRequest(clientID, req, rxt, txt, resp)
+}
+
+func VerifUpdateTXTimestamp(clientID string, rxt time.Time, txt *time.Time) {
+	updateTXTimestamp(clientID, rxt, txt)
+}
+
+func VerifSnapshotTSS() VerifTSSSnapshot {
+	tssMu.Lock()
+	defer tssMu.Unlock()
+	var s VerifTSSSnapshot
+	for _, it := range tss {
+		x := VerifTSSItem{Key: it.key, Qval: it.qval, Qidx: it.qidx}
+		for i := 0; i != it.len; i++ {
+			x.Entries = append(x.Entries, VerifTSSEntry{Rxt: it.buf[i].rxt, Txt: it.buf[i].txt})
+		}
+		s.Items = append(s.Items, x)
+	}
+	sort.Slice(s.Items, func(i, j int) bool { return s.Items[i].Key < s.Items[j].Key })
+	for _, it := range tssQ {
+		s.Queue = append(s.Queue, it.key)
+	}
+	return s
+}
+
+// VerifTSSLen returns the number of clients and queue entries without copying the store.
+func VerifTSSLen() (items, queue int) {
+	tssMu.Lock()
+	defer tssMu.Unlock()
+	return len(tss), len(tssQ)
+}
+
+func VerifResetTSS() {
+	tssMu.Lock()
+	defer tssMu.Unlock()
+	tss = make(map[string]*tssItem)
+	tssQ = make(tssQueue, 0, tssCap)
+}
